@@ -47,7 +47,11 @@ func main() {
 	meta := flag.Bool("meta", false, "print the property's metadata as JSON")
 	floor := flag.String("floor", "", "evaluate the coverage floor on a merged statistics file")
 	raceFilter := flag.Bool("racefilter", false, "classify the race detector logs given as arguments")
+	straceHelper := flag.String("strace-helper", "", "run the fixed C09 history on a real file at this path and print the StoreFile-level write log")
 	flag.Parse()
+	if *straceHelper != "" {
+		os.Exit(props.StraceHelper(*straceHelper))
+	}
 	pr := props.Registry[*p]
 	if pr == nil {
 		fmt.Fprintf(os.Stderr, "unknown property %q\n", *p)
